@@ -665,16 +665,16 @@ Proof. by rewrite skipn_app, skipn_all, Nat.sub_diag. Qed.
 Lemma prefix_false_app (d x t : upath) : UserView.is_prefix d x = false → x ≠ d ++ t.
 Proof. intros H ->. by rewrite UserViewProofs.is_prefix_app in H. Qed.
 
-Lemma uget_copy U1 (s d x : upath) :
-  uget (U1 ++ UserView.t_rename s d (UserView.t_sub s U1)) x =
+Lemma uget_copy U U1 (s d x : upath) :
+  uget (U1 ++ UserView.t_rename s d (UserView.t_sub s U)) x =
   match uget U1 x with
   | Some o => Some o
-  | None => if UserView.is_prefix d x then uget U1 (s ++ skipn (length d) x) else None
+  | None => if UserView.is_prefix d x then uget U (s ++ skipn (length d) x) else None
   end.
 Proof.
   rewrite SyncProofs.t_get_app. destruct (uget U1 x) as [o|]; [done|].
   unfold UserView.t_rename.
-  assert (∀ k, In k (map fst (UserView.t_sub s U1)) → UserView.is_prefix s k = true) as Hsub.
+  assert (∀ k, In k (map fst (UserView.t_sub s U)) → UserView.is_prefix s k = true) as Hsub.
   { intros k Hk. apply in_map_iff in Hk as (e & <- & He). unfold UserView.t_sub in He.
     by apply filter_In in He as [_ He]. }
   destruct (UserView.is_prefix d x) eqn:P.
@@ -792,7 +792,7 @@ Section CopyMove.
   Hypothesis HF : Fresh U d.
   Hypothesis HM : UserView.t_mkgroups U (UserView.parent d) = Some U1.
 
-  Let Uc := U1 ++ UserView.t_rename s d (UserView.t_sub s U1).
+  Let Uc := U1 ++ UserView.t_rename s d (UserView.t_sub s U).
   Let Tc : tree := t_graft_snap (rel_snap T (rpath s)) (rpath d) ∪ T1.
 
   Lemma fresh1 : Fresh U1 d.
@@ -816,7 +816,7 @@ Section CopyMove.
         rewrite graft_snap_lookup, rel_snap_lookup, HR, HR1.
         unfold look. rewrite Hor, Ho.
         apply is_prefix_iff in P as [t ->]. rewrite prefix_app_drop in *.
-        rewrite fresh1, src_frame.
+        rewrite fresh1.
         destruct (uget U (s ++ t)) as [o|]; [|done]. rewrite He.
         by destruct (ent o (r ++ rpath d)).
       + rewrite graft_snap_None, HR1, (left_id None _).
@@ -840,7 +840,7 @@ Section CopyMove.
     pose proof (owner_under s q p Ho) as Hu.
     destruct (UserView.is_prefix d p) eqn:P.
     - rewrite decide_False.
-      + apply is_prefix_iff in P as [t ->]. by rewrite fresh1.
+      + apply is_prefix_iff in P as [t ->]. by rewrite fresh1, ?prefix_app_drop, ?src_frame.
       + intros H. apply Hu in H.
         apply is_prefix_iff in P, H.
         destruct (prefix_weak_total s d p H P) as [[t E]|[t E]].
@@ -894,24 +894,22 @@ Proof.
   destruct t; [by rewrite app_nil_r|]. cbn in Hb. lia.
 Qed.
 
-Lemma copy_rep U T (s d : upath) : Rep U T → wf U → UserView.is_below s d = false →
+Lemma copy_rep U T (s d : upath) : Rep U T → wf U →
   RepO (UserView.u_copy U s d) (t_copy T (rpath s) (rpath d)).
 Proof.
-  intros HR Hwf Hb. unfold UserView.u_copy.
+  intros HR Hwf. unfold UserView.u_copy.
   destruct (decide (s = [])) as [->|Hs]; [done|].
   destruct (decide (d = [])) as [->|Hd].
   { destruct s; [done|]. unfold t_copy. by destruct (rpath (_ :: _)). }
   assert (∀ X : option utree, match s, d with [], _ | _, [] => None | _, _ => X end = X) as ->
     by (intros X; by destruct s, d).
   rewrite t_copy_eq by done. rewrite !(has_look U T) by done.
-  destruct (UserView.is_prefix s d) eqn:Hsd.
-  - apply below_false_prefix in Hsd as ->; [|done]. cbn. by destruct (T !! rpath s).
-  - cbn [orb]. destruct (T !! rpath s) eqn:Es, (T !! rpath d) eqn:Ed; cbn; try done.
-    pose proof (mk_rep U T HR (UserView.parent d)) as HM.
-    destruct (UserView.t_mkgroups U (UserView.parent d)) as [U1|] eqn:EU,
-             (t_mkgroups T (rpath (UserView.parent d))) as [T1|]; try done.
-    cbn. apply (copy_rep_core U T s d U1 T1); try done.
-    apply wf_fresh; [done|]. rewrite (has_look U T) by done. by rewrite Ed.
+  destruct (T !! rpath s) eqn:Es, (T !! rpath d) eqn:Ed; cbn; try done.
+  pose proof (mk_rep U T HR (UserView.parent d)) as HM.
+  destruct (UserView.t_mkgroups U (UserView.parent d)) as [U1|] eqn:EU,
+           (t_mkgroups T (rpath (UserView.parent d))) as [T1|]; try done.
+  cbn. apply (copy_rep_core U T s d U1 T1); try done.
+  apply wf_fresh; [done|]. rewrite (has_look U T) by done. by rewrite Ed.
 Qed.
 
 Lemma move_rep U T (s d : upath) : Rep U T → wf U →
@@ -958,7 +956,7 @@ Proof.
   destruct b as [q|q|q v|q v|q|s d|s d|q k v|q k]; cbn in Hv, Hb, Hside; try done;
     injection Hv as <-; cbn [UserView.u_apply]; rewrite ?node_rpath; cbn [andb].
   - by apply move_rep.
-  - apply copy_rep; [done|done|]. by destruct (UserView.is_below s d).
+  - by apply copy_rep.
 Qed.
 
 Lemma root_apply U b U' : wf U → UserView.u_apply U b = Some U' → root_ok U'.
@@ -975,7 +973,7 @@ Proof.
     + cbn. eapply root_mkgroups; [done|apply Hwf].
     + by apply wf_fresh.
   - unfold UserView.u_copy in H. destruct s as [|x s]; [done|]. destruct d as [|y d]; [done|].
-    destruct (_ || _ || _); [done|].
+    destruct (_ || _); [done|].
     destruct (UserView.t_mkgroups U _) as [U1|] eqn:EU; [|done]. injection H as <-.
     unfold root_ok. rewrite SyncProofs.t_get_app.
     pose proof (root_mkgroups _ _ _ _ EU (proj1 Hwf)) as H1. unfold root_ok in H1.
